@@ -6,6 +6,7 @@
   the database's XA state machine replayed over the successful commands, `xaId` the identifier.
 -/
 import SeataModel.XA.Branch
+import SeataModel.XA.Conn
 namespace Seata.Props.C17
 open Seata.XA
 
@@ -84,5 +85,55 @@ theorem C17_success (commit : Bool) :
     dbState (phaseOne .none).trace = .prepared ∧
     dbState (whole .none commit) = (if commit then .committed else .rolledBack) := by
   cases commit <;> decide
+
+
+/-! ### a connection the application keeps, over any sequence of statements and local transactions -/
+
+theorem cstep_inv (c : Conn) (op : COp) (h : CInv c) : CInv (cstep c op).1 := by
+  unfold CInv at *
+  cases op with
+  | stmt f => cases hc : c.autoCommit <;> cases ho : openFails f <;> simp_all [cstep]
+  | begin f => cases hc : c.autoCommit <;> cases ho : openFails f <;> simp_all [cstep]
+  | commitTx f => simp [cstep]
+  | rollbackTx => simp [cstep]
+
+theorem cstep_inside (c : Conn) (op : COp) (h : CInv c) : ∀ b ∈ (cstep c op).2, b = true := by
+  unfold CInv at h
+  cases op with
+  | stmt f => cases hc : c.autoCommit <;> cases ho : openFails f <;> simp_all [cstep]
+  | begin f => cases hc : c.autoCommit <;> cases ho : openFails f <;> simp_all [cstep]
+  | commitTx f => simp [cstep]
+  | rollbackTx => simp [cstep]
+
+/-- **no statement outside a branch**: whatever the application does on the connection — statements on their
+    own, local transactions it begins, commits or rolls back — and wherever opening a branch, a statement, XA END
+    or XA PREPARE fails, every statement that reaches the database does so inside a branch, and the connection
+    never stays out of auto-commit mode without one -/
+theorem C17_no_statement_outside_a_branch (ops : List COp) (c : Conn) (h : CInv c) :
+    CInv (crun cstep c ops).1 ∧ ∀ b ∈ (crun cstep c ops).2, b = true := by
+  induction ops generalizing c with
+  | nil => exact ⟨h, by simp [crun]⟩
+  | cons op rest ih =>
+    have h1 := cstep_inv c op h
+    have h2 := cstep_inside c op h
+    obtain ⟨i1, i2⟩ := ih (cstep c op).1 h1
+    refine ⟨by simpa [crun] using i1, ?_⟩
+    intro b hb
+    simp only [crun, List.mem_append] at hb
+    rcases hb with hb | hb
+    · exact h2 b hb
+    · exact i2 b hb
+
+/-- a fresh connection meets the premise -/
+theorem C17_fresh_connection : CInv {} := by simp [CInv]
+
+/-- before the repairs: a branch that cannot be started, then a statement — which ran bare -/
+theorem C17_before_fix_statement_runs_bare :
+    (crun cstepBeforeFix {} [.stmt .start, .stmt .none]).2 = [false] ∧
+    (crun cstepBeforeFix {} [.begin .registerRefused, .stmt .none]).2 = [false] ∧
+    (crun cstepBeforeFix {} [.begin .none, .stmt .stmt, .stmt .none, .commitTx .none]).2 = [true, false] := by decide
+
+example : (crun cstep {} [.begin .none, .stmt .stmt, .stmt .none, .commitTx .none, .stmt .start, .stmt .none]).2
+    = [true, true, true] := by decide
 
 end Seata.Props.C17
